@@ -328,11 +328,30 @@ Definition decode_long (lit : bytes) : option (bytes * bytes) :=
   | _ => None
   end.
 
+(** line breaks inside a long string are normalised by the reader: Luau turns CR LF into LF
+    (a lone CR is kept); Lua 5.1 turns CR, CR LF and LF CR into one LF *)
+Fixpoint norm_newlines (luau : bool) (s : bytes) : bytes :=
+  match s with
+  | [] => []
+  | c :: r =>
+    if c =? 13 then
+      match r with
+      | 10 :: r' => 10 :: norm_newlines luau r'
+      | _ => (if luau then 13 else 10) :: norm_newlines luau r
+      end
+    else if c =? 10 then
+      match r with
+      | 13 :: r' => if luau then 10 :: norm_newlines luau r else 10 :: norm_newlines luau r'
+      | _ => 10 :: norm_newlines luau r
+      end
+    else c :: norm_newlines luau r
+  end.
+
 (** decode any literal the writer may produce; the literal must be consumed entirely *)
 Definition decode_literal (luau : bool) (lit : bytes) : option bytes :=
   match lit with
   | 91 :: _ => match decode_long lit with
-               | Some (v, []) => Some v
+               | Some (v, []) => Some (norm_newlines luau v)
                | _ => None
                end
   | _ => decode_quoted luau lit
